@@ -232,6 +232,7 @@ static void *gp_thread(void *arg)
 		if (i == last)
 			usim_quiet_vote();
 		usim_trace("op %d.%d %s", me, i, opname[op->kind]);
+		op_stall_begin(op);
 		switch (op->kind) {
 		case OP_READ:
 			do_read(me, op);
@@ -274,6 +275,7 @@ static void *gp_thread(void *arg)
 			}
 			break;
 		}
+		op_stall_end();
 	}
 	qsbr_close(me);
 	if (!F->is_bp)
@@ -318,6 +320,7 @@ static void gen(int live)
 			op->a = 1 + rnd(3);		/* nesting depth */
 			op->b = rnd(4);			/* pauses inside */
 			op->c = rnd(nthreads);		/* litmus pair read */
+			op_stall_gen(op, 5, 14);
 			usim_describe("%s\"%s", i ? "," : "", opname[op->kind]);
 			if (op->kind == OP_READ)
 				usim_describe("(d%d,p%d)", op->a, op->b);
